@@ -151,7 +151,7 @@ def work(case):
     texts = engine_run.texts_of(data)
     edits = case.get("edits")
     if edits is None:
-        edits = editgen.gen_batch(rng, case["doc"], texts, rng.randint(1, 4), editgen.KINDS_C02)
+        edits = editgen.gen_batch(rng, case["doc"], texts, rng.randint(1, 4), editgen.KINDS_C02, allow_collisions=True)
     runs = []
     for order in (orders_of(rng, edits) if edits else []):
         r = engine_run.run_edits(data, order)
@@ -173,7 +173,16 @@ def oracle(res):
 
 
 def classify(res):
-    return "F-fuzzy-raw-precedence" if res.get("fuzzy_dom") else None
+    """Domains of findings: (fixed) fuzzy/raw precedence; (open) the target of one edit also occurs in the new text of
+    another edit of the batch — the engine matches against the document as it evolves, so the later edit can meet the
+    text the earlier one inserted."""
+    if res.get("fuzzy_dom"):
+        return "F-fuzzy-raw-precedence"
+    edits = res["case"]["edits"]
+    for i, e in enumerate(edits):
+        if any(j != i and e["target"] and e["target"] in (o["new"] or "") for j, o in enumerate(edits)):
+            return "F-target-in-new-text-of-batch"
+    return None
 
 
 def nontrivial(res):
